@@ -64,11 +64,18 @@ Record pstate := {
   p_queue : list (N * N);
   p_bal : bank_t;
   p_done : list N;               (* executed so far *)
-  p_gone : list N                (* executed, destroyed or otherwise vanished so far *)
+  p_gone : list N;               (* executed, destroyed or otherwise vanished so far *)
+  p_cal : N                      (* calibrated on the same binary in this run: the least gas one successful
+                                    bank-send action costs through the router's handler (0 = not calibrated) *)
 }.
 
-Definition pinit (b : bank_t) : pstate :=
-  {| p_known := []; p_reg := []; p_queue := []; p_bal := b; p_done := []; p_gone := [] |}.
+Definition pinit (b : bank_t) (cal : N) : pstate :=
+  {| p_known := []; p_reg := []; p_queue := []; p_bal := b; p_done := []; p_gone := []; p_cal := cal |}.
+
+(** least prepaid gas with which [n] send actions can all have run: n times the cost of one (the
+    calibrated one less 5 % tolerance, and never below the model's [gas_lo]) *)
+Definition min_gas_for (cal : N) (n : nat) : N :=
+  N.of_nat n * N.max gas_lo (cal * 95 / 100).
 
 Definition lookup (i : N) (l : list known) : option known := find (fun k => k_id k =? i) l.
 
@@ -140,12 +147,13 @@ Definition prop_block (accts : list N) (p : pstate) (b : block) (o : obs) : psta
                            | None => false end) newq)
         "prop:queued without its condition being met" ++
     tag (bal_agree accts expect (ob_bal o)) "prop:effects are not all-or-nothing" ++
-    (* within the prepaid gas: a send needs at least [gas_lo], so a trigger whose limit is below
-       gas_lo * (number of actions) cannot have run all of them inside its limit *)
+    (* within the prepaid gas: the gas of ALL actions is charged to the one limit; a successful trigger ran
+       every one of its n actions, each costing at least the calibrated cost of one send, so its limit
+       cannot be below n times that *)
     tag (forallb (fun x : N * bool =>
                     negb (snd x) ||
                     match lookup (fst x) known', find (fun q => fst q =? fst x) (p_queue p) with
-                    | Some k, Some q => gas_lo * N.of_nat (List.length (k_actions k)) <=? snd q
+                    | Some k, Some q => min_gas_for (p_cal p) (List.length (k_actions k)) <=? snd q
                     | _, _ => true
                     end) (ob_exec o))
         "prop:actions succeeded beyond the trigger's gas limit" ++
@@ -167,7 +175,8 @@ Definition prop_block (accts : list N) (p : pstate) (b : block) (o : obs) : psta
         "prop:gas limit above what the creator prepaid"
   in
   ({| p_known := known'; p_reg := ob_reg o; p_queue := ob_queue o; p_bal := bank_of (ob_bal o);
-      p_done := exec_ids ++ p_done p; p_gone := exec_ids ++ destroyed_ids ++ vanished ++ p_gone p |}, errs).
+      p_done := exec_ids ++ p_done p; p_gone := exec_ids ++ destroyed_ids ++ vanished ++ p_gone p;
+      p_cal := p_cal p |}, errs).
 
 (** ** histories *)
 Fixpoint check_hist (accts : list N) (s : state) (p : pstate) (i : N) (l : list (block * obs)) : list string :=
@@ -185,14 +194,14 @@ Fixpoint check_hist (accts : list N) (s : state) (p : pstate) (i : N) (l : list 
 (** [CHalt]: the chain could not produce the block after the ones shown (FinalizeBlock failed: a begin
     or end blocker panicked). *)
 Inductive case :=
-| CHist (accts : list N) (bal0 : list (N * Z)) (blocks : list (block * obs))
-| CHalt (accts : list N) (bal0 : list (N * Z)) (blocks : list (block * obs)).
+| CHist (accts : list N) (bal0 : list (N * Z)) (cal : N) (blocks : list (block * obs))
+| CHalt (accts : list N) (bal0 : list (N * Z)) (cal : N) (blocks : list (block * obs)).
 
 Definition check (c : case) : list string :=
   match c with
-  | CHist accts bal0 blocks => check_hist accts (init (bank_of bal0)) (pinit (bank_of bal0)) 0 blocks
-  | CHalt accts bal0 blocks =>
-      match check_hist accts (init (bank_of bal0)) (pinit (bank_of bal0)) 0 blocks with
+  | CHist accts bal0 cal blocks => check_hist accts (init (bank_of bal0)) (pinit (bank_of bal0) cal) 0 blocks
+  | CHalt accts bal0 cal blocks =>
+      match check_hist accts (init (bank_of bal0)) (pinit (bank_of bal0) cal) 0 blocks with
       | [] => [("prop:chain halted: the trigger begin/end blocker failed after block " ++ nat_to_string (List.length blocks))%string]
       | e => e
       end
